@@ -5,7 +5,8 @@
    S = the ONNX direct-convolution formula (conv1d_spec / conv2d_spec here; Conv.conv_spec with the
    ONNX pad and dilation rules in the correspondence check). *)
 From Coq Require Import List ZArith Bool String Lia.
-From V Require Import DType Tensor Case Writes ConvLoop ConvLoopProofs Conv ConvProofs ConvRefines.
+From Coq Require Import Permutation.
+From V Require Import DType Tensor Case Writes ConvLoop ConvLoopProofs Conv ConvProofs ConvRefines OpCheck CheckC05 ConvAttrs.
 Import ListNotations.
 
 (* The loop nests ARE the direct convolution: for every batch size, channel and kernel count, every
@@ -86,6 +87,18 @@ Proof. exact (conv_model_refines_spec_min cf x k bias t). Qed.
 Print Assumptions C05_model_refines_spec.
 
 (* the known-finding class is real: for auto_pad = VALID the code pads like SAME_UPPER, ONNX does not pad *)
+(* the attributes are a set: whatever the order of the node's attribute list (distinct names), the
+   model and the specification give the same outcome -- a `group` other than 1 or an attribute Conv
+   does not know refuses the node wherever it stands (the implementation is observed on this by the
+   attribute_order stream and by the group / unknown-attribute cases of the generator) *)
+Theorem C05_attribute_order_irrelevant c c' :
+  oc_ins c = oc_ins c' -> Permutation (oc_attrs c) (oc_attrs c') -> NoDup (map attr_name (oc_attrs c)) ->
+  CheckC05.model c = CheckC05.model c' /\ CheckC05.spec c = CheckC05.spec c' /\ CheckC05.known_class c = CheckC05.known_class c'.
+Proof. exact (conv_attr_order c c'). Qed.
+Theorem C05_group_refused c : existsb (fun a => match a with AInt n g => String.eqb n "group" && negb (g =? 1)%Z | _ => false end) (oc_attrs c) = true ->
+  CheckC05.model c = MErr /\ CheckC05.spec c = SMustErr.
+Proof. exact (conv_group_refused c). Qed.
+
 Example C05_valid_refuted :
   let cf := {| c_auto := Valid; c_dil := [2]; c_pads := []; c_str := [1] |} in
   let x := {| dt := Float32; sh := [1;1;5]%nat; pl := [1;2;3;4;5] |} in
